@@ -1,4 +1,211 @@
-From Coq Require Import ZArith List.
-From SB3V Require Import Model.Callbacks.
-Theorem C13_stub : True. Proof. exact I. Qed.
-Print Assumptions C13_stub.
+(* C13 - callback event protocol.
+   Only statements: every proof is [exact <lemma>], followed by Print Assumptions. *)
+From SB3V Require Import Lib.Tactics Gen.Frag_callbacks Model.Callbacks Proofs.CallbacksProofs.
+From SB3V Require Refuted.C13_everyN.   (* the F8 witness is rebuilt with every check *)
+Local Open Scope Z_scope.
+
+(* The events learn() delivers to the root callback, for every callback tree, rollout kind (on-policy n_steps,
+   off-policy train_freq in steps or episodes), n_envs, loop fuel, dones oracle and start state, are
+     TS  (RS (UL Step)^k RE)*  (RS (UL Step)^j with the last Step returning false)?  TE
+   where UL is update_locals right after one env.step (the step counter grows by one per Step event, so there is
+   exactly one step event per vectorised environment step and its locals are those of that very step) and
+   num_timesteps grows by n_envs per Step. *)
+Theorem C13_trace_grammar : forall fuel rf ne k total reset dones s s' tr,
+  learn fuel rf ne k total reset dones s = (s', tr) ->
+  exists evs stopped,
+    tr = (TS (fst (setup reset (d_nt s) total)), true) :: evs ++ [(TE, true)] /\
+    body ne (fst (setup reset (d_nt s) total)) (d_stamp s) evs stopped (d_nt s') (d_stamp s').
+Proof. exact learn_grammar. Qed.
+Print Assumptions C13_trace_grammar.
+
+(* a step event returning False stops training before any further environment step *)
+Theorem C13_stop_halts : forall fuel rf ne k total reset dones s s' tr pre e post,
+  learn fuel rf ne k total reset dones s = (s', tr) ->
+  tr = pre ++ (e, false) :: post -> post = [(TE, true)].
+Proof. exact stop_halts. Qed.
+Print Assumptions C13_stop_halts.
+
+(* the unfinished rollout occurs iff a Step returned false *)
+Theorem C13_unfinished_rollout_iff_stop : forall ne nt st evs stopped nt' st',
+  body ne nt st evs stopped nt' st' -> (stopped = true <-> exists e, In (e, false) evs).
+Proof. exact stopped_iff_false_step. Qed.
+Print Assumptions C13_unfinished_rollout_iff_stop.
+
+(* the callback tree is delivered exactly the events of the trace, in order *)
+Theorem C13_tree_receives_trace : forall fuel rf ne k total reset dones s s' tr,
+  learn fuel rf ne k total reset dones s = (s', tr) -> d_cb s' = run (map fst tr) (d_cb s).
+Proof. exact learn_is_run. Qed.
+Print Assumptions C13_tree_receives_trace.
+
+(* every child of a CallbackList - through any nesting of lists - is delivered every event the root is
+   delivered, for every history, also after a sibling returned false *)
+Theorem C13_list_forwards_all : forall evs p c x,
+  sub p c = Some x -> sub p (run evs c) = Some (run evs x).
+Proof. exact list_child_sees_all. Qed.
+Print Assumptions C13_list_forwards_all.
+
+Theorem C13_list_step_and_return : forall e b l,
+  dispatch e (CList b l) =
+  (CList (base_ev e b) (map (fun c => fst (dispatch e c)) l),
+   if is_step e then forallb (fun c => snd (dispatch e c)) l else true).
+Proof. exact dispatch_clist. Qed.
+Print Assumptions C13_list_step_and_return.
+
+(* a recorder below lists logs one entry per root event, with its own n_calls / num_timesteps / locals *)
+Theorem C13_list_recorder_log : forall evs p c b stop log,
+  sub p c = Some (Rec b stop log) ->
+  sub p (run evs c) = Some (Rec (base_after b evs) stop (log ++ rec_entries b evs)).
+Proof. exact list_recorder_log. Qed.
+Print Assumptions C13_list_recorder_log.
+
+(* ... and within a rollout these entries are numbered: n_calls + i, num_timesteps + i*n_envs, locals of env step stamp + i *)
+Theorem C13_step_entries_numbered : forall ne nt st steps nt' st',
+  good_steps ne nt st steps nt' st' ->
+  forall b, exists k,
+    rec_entries b (map fst steps) = step_entries ne k (b_calls b) nt st /\
+    b_calls (base_after b (map fst steps)) = b_calls b + Z.of_nat k /\
+    nt' = nt + Z.of_nat k * ne /\ st' = st + Z.of_nat k.
+Proof. exact good_steps_entries. Qed.
+Print Assumptions C13_step_entries_numbered.
+
+(* CheckpointCallback saves exactly at the on_step calls whose number is a multiple of save_freq,
+   counted over the whole life of the callback (any number of learn() calls, any other events in between) *)
+Theorem C13_checkpoint_cadence : forall evs b f sv,
+  run evs (Checkpoint b f sv) =
+  Checkpoint (base_after b evs) f
+    (sv ++ filter (fun p => checkpoint_fires (fst p) f) (numbered (b_calls b) (steps_of evs))).
+Proof. exact checkpoint_cadence. Qed.
+Print Assumptions C13_checkpoint_cadence.
+
+Theorem C13_checkpoint_multiples : forall c f, 0 < f -> (checkpoint_fires c f = true <-> exists q, c = q * f).
+Proof. exact checkpoint_fires_iff. Qed.
+Print Assumptions C13_checkpoint_multiples.
+
+(* EvalCallback evaluates exactly at the calls with eval_freq > 0 and n_calls mod eval_freq = 0, whatever its children do *)
+Theorem C13_eval_cadence : forall evs b f best evals d ob af,
+  eval_done (run evs (EvalC b f best evals d ob af)) =
+  d ++ filter (fun p => eval_fires (fst p) f) (numbered (b_calls b) (steps_of evs)).
+Proof. exact eval_cadence. Qed.
+Print Assumptions C13_eval_cadence.
+
+(* its children: on_new_best is stepped iff an evaluation improved the best mean; after_eval iff an evaluation
+   took place and on_new_best did not return false; nothing otherwise *)
+Theorem C13_eval_children_on_trigger_only : forall nt b f best evals d ob af,
+  let c' := b_calls b + 1 in
+  let r := dispatch (Step nt) (EvalC b f best evals d ob af) in
+  (eval_fires c' f = false ->
+     r = (EvalC (base_step nt b) f best evals d ob af, true)) /\
+  (eval_fires c' f = true -> better (hd 0 evals) best = false ->
+     r = (EvalC (base_step nt b) f best (tl evals) (d ++ [(c', nt)]) ob (fst (dispatch (Step nt) af)),
+          snd (dispatch (Step nt) af))) /\
+  (eval_fires c' f = true -> better (hd 0 evals) best = true ->
+     r = (EvalC (base_step nt b) f (Some (hd 0 evals)) (tl evals) (d ++ [(c', nt)])
+            (fst (dispatch (Step nt) ob))
+            (if snd (dispatch (Step nt) ob) then fst (dispatch (Step nt) af) else af),
+          if snd (dispatch (Step nt) ob) then snd (dispatch (Step nt) af) else false)).
+Proof. exact eval_children_on_trigger_only. Qed.
+Print Assumptions C13_eval_children_on_trigger_only.
+
+(* EveryNTimesteps fires iff num_timesteps - last_time_trigger >= n, for every history and child *)
+Theorem C13_everyN_cadence : forall evs b n last fired ch,
+  everyn_state (run evs (EveryN b n last fired ch)) =
+  (trig_last n last (steps_of evs), fired ++ trig n last (steps_of evs)).
+Proof. exact everyN_cadence. Qed.
+Print Assumptions C13_everyN_cadence.
+
+Theorem C13_event_child_on_trigger_only : forall nt b n last fired ch,
+  (everyn_fires nt last n = false ->
+     dispatch (Step nt) (EveryN b n last fired ch) = (EveryN (base_step nt b) n last fired ch, true)) /\
+  (everyn_fires nt last n = true ->
+     dispatch (Step nt) (EveryN b n last fired ch) =
+     (EveryN (base_step nt b) n nt (fired ++ [nt]) (fst (dispatch (Step nt) ch)), snd (dispatch (Step nt) ch))) /\
+  (forall e, e = RS \/ e = RE \/ e = TE -> dispatch e (EveryN b n last fired ch) = (EveryN b n last fired ch, true)).
+Proof. exact event_child_on_trigger_only. Qed.
+Print Assumptions C13_event_child_on_trigger_only.
+
+(* documented cadence "every n timesteps": as long as the kept trigger time is not in the future of the counter
+   (fresh callback; learn() continued without counter reset), consecutive triggers are n .. n+n_envs-1 apart
+   and a trigger occurs as soon as n timesteps have passed.  The hypothesis [last <= nt] is exactly what the
+   counter reset of a second learn() breaks: see Refuted/C13_everyN.v (finding F8). *)
+Theorem C13_everyN_gaps : forall n ne, 1 <= n -> 1 <= ne -> forall k nt last,
+  last <= nt -> nt - last < n -> gaps_ok n ne last (trig n last (prog nt ne k)).
+Proof. exact everyN_gaps. Qed.
+Print Assumptions C13_everyN_gaps.
+
+Theorem C13_everyN_fires_within_n : forall n ne, 1 <= n -> 1 <= ne -> forall k nt last,
+  last <= nt -> nt - last < n -> n <= nt + Z.of_nat k * ne - last -> trig n last (prog nt ne k) <> [].
+Proof. exact everyN_fires_within_n. Qed.
+Print Assumptions C13_everyN_fires_within_n.
+
+(* StopTrainingOnMaxEpisodes: counts the dones of the step its locals describe; stops iff the count reaches the total *)
+Theorem C13_maxep_counts : forall evs b total neps,
+  run evs (MaxEp b total neps) = MaxEp (base_after b evs) total (neps + dones_seen b evs).
+Proof. exact maxep_counts. Qed.
+Print Assumptions C13_maxep_counts.
+
+Theorem C13_maxep_stops_iff : forall nt b total neps,
+  snd (dispatch (Step nt) (MaxEp b total neps)) = false <-> total <= neps + ndones_of b.
+Proof. exact maxep_stops_iff. Qed.
+Print Assumptions C13_maxep_stops_iff.
+
+(* ---- the model's predicates and loop guards are the statements regenerated from the source ---- *)
+Theorem C13_fragments_callbacks : forall b nt c f m bst r acc last n,
+  cb_on_step_counters (b_calls b) nt = (b_calls (base_step nt b), b_nt (base_step nt b)) /\
+  cb_training_start_nt nt = b_nt (base_ts nt b) /\
+  cblist_combine r acc = (r && acc)%bool /\
+  checkpoint_cond c f = checkpoint_fires c f /\
+  eval_cond c f = eval_fires c f /\
+  eval_better m bst = better m (Some bst) /\
+  eval_after_combine acc r = (if acc then r else false) /\
+  everyn_cond nt last n = everyn_fires nt last n /\
+  everyn_update nt = nt /\ everyn_init_last = 0.
+Proof.
+  exact (fun b nt c f m bst r acc last n =>
+    conj (frag_on_step_counters b nt) (conj (frag_training_start_nt b nt) (conj (frag_cblist_combine r acc)
+    (conj (frag_checkpoint_cond c f) (conj (frag_eval_cond c f) (conj (frag_eval_better m bst)
+    (conj (frag_eval_after_combine acc r) (conj (frag_everyn_cond nt last n) (conj (frag_everyn_update nt) frag_everyn_init))))))))).
+Qed.
+Print Assumptions C13_fragments_callbacks.
+
+Theorem C13_fragments_maxep : forall m ne neps nd,
+  maxep_total m ne = m * ne /\ maxep_count neps nd = neps + nd /\ maxep_continue neps (m * ne) = (neps <? m * ne).
+Proof. exact frag_maxep. Qed.
+Print Assumptions C13_fragments_maxep.
+
+Theorem C13_fragments_loops : forall steps eps n nt ne total reset ep,
+  (onpol_rollout_guard steps n = more (OnPol n) steps eps /\
+   cb_collect_more_step steps n = more (OffStep n) steps eps /\
+   cb_collect_more_episode eps n = more (OffEpis n) steps eps) /\
+  (onpol_count nt ne = nt + ne /\ onpol_nsteps_inc steps = steps + 1 /\
+   offpol_count nt ne steps = (nt + ne, steps + 1) /\ offpol_episode_inc eps = eps + 1) /\
+  (onpol_learn_guard nt total = (nt <? total) /\ offpol_learn_guard nt total = (nt <? total)) /\
+  (let '(nt', _, total') := setup_learn_counters reset nt ep total in (nt', total') = setup reset nt total).
+Proof.
+  exact (fun steps eps n nt ne total reset ep =>
+    conj (frag_rollout_guards steps eps n) (conj (frag_counts nt ne steps eps) (conj (frag_learn_guards nt total) (frag_setup reset nt ep total)))).
+Qed.
+Print Assumptions C13_fragments_loops.
+
+(* ---- non-vacuity ---- *)
+Definition ex_tree : cb := clist [rec_ 0; everyn 3 (rec_ 2); checkpoint 2; eval_ 2 [5; 1; 7] (rec_ 0) (clist [rec_ 0; maxep 1 2])].
+
+(* a run with two learn() calls on 2 envs that is stopped by the recorder below EveryNTimesteps at its second call *)
+(* two learn() calls on 2 envs; StopTrainingOnMaxEpisodes below EvalCallback.after below a list stops both *)
+Example C13_ex_run :
+  let r := learns 50 50 2 (OnPol 3) [mkCall 8 true [0; 1; 0; 2]; mkCall 20 false [1; 1; 1; 1; 1; 1]] (init_dst ex_tree) in
+  map (fun tr => length tr) (snd r) = [13; 7]%nat /\
+  (exists pre, nth 1 (snd r) [] = pre ++ [(Step 12, false); (TE, true)]) /\
+  d_nt (fst r) = 12 /\ d_stamp (fst r) = 6.
+Proof.
+  vm_compute. split; [reflexivity|]. split; [|split; reflexivity].
+  exists [(TS 8, true); (RS, true); (UL 5 1, true); (Step 10, true); (UL 6 1, true)]. reflexivity.
+Qed.
+
+Example C13_ex_sub : exists b, sub [3%nat; 0%nat] ex_tree = None /\ sub [0%nat] ex_tree = Some (Rec b 0 []).
+Proof. eexists. split; reflexivity. Qed.
+
+Example C13_ex_gaps : trig 4 0 (prog 0 3 6) = [6; 12; 18] /\ gaps_ok 4 3 0 [6; 12; 18].
+Proof. split; [reflexivity|]. cbn. lia. Qed.
+
+Example C13_ex_good_steps : good_steps 2 0 0 [(UL 1 0, true); (Step 2, true); (UL 2 1, true); (Step 4, true)] 4 2.
+Proof. apply (gs_cons 2 0 0 0). apply (gs_cons 2 2 1 1). apply gs_nil. Qed.
